@@ -54,7 +54,9 @@ def spec():
         # a time of day, and values whose schema says little: a free-form object, "anything", an array of free-form objects
         "Loose": {"type": "object", "required": ["id"], "properties": {
             "id": {"type": "integer"}, "at": {"type": "string", "format": "time"}, "meta": {"type": "object"}, "payload": {},
-            "rows": {"type": "array", "items": {"type": "object"}}, "note": {"description": "anything goes"}}},
+            "rows": {"type": "array", "items": {"type": "object"}}, "note": {"description": "anything goes"},
+            # arrays whose ITEMS may be null
+            "slots": {"type": "array", "items": {"type": "string", "nullable": True}}, "counts": {"type": "array", "items": {"type": "integer", "nullable": True}}}},
         "Tree": {"type": "object", "required": ["label"], "properties": {"label": {"type": "string"}, "kids": {"type": "array", "items": {"$ref": "#/components/schemas/Tree"}}}},
     }
     ok = {"description": "ok", "content": {"application/json": {"schema": {"$ref": "#/components/schemas/Person"}}}}
